@@ -63,6 +63,26 @@ class IndepA(IndepBase):
     message = 'independent error'
 
 
+class OwnRegistryMeta(exc.JsonRpcErrorMeta):
+    """a sub-metaclass with a registry of its own: the classes of this hierarchy are looked up (and registered) there and nowhere else
+    (the library reads `type(cls).__errors_mapping__`), so a service's codes may overlap with the global ones"""
+    __errors_mapping__: Dict[int, type] = {}
+
+
+class MetaBase(exc.JsonRpcError, metaclass=OwnRegistryMeta):
+    pass
+
+
+class MetaA(MetaBase):
+    code = 2001            # overlaps with the globally registered Custom2001
+    message = 'own registry 2001'
+
+
+class MetaB(MetaBase):
+    code = 7
+    message = 'own registry 7'
+
+
 class Replaced2005(exc.JsonRpcError):
     """registered for code 2005 first ..."""
     code = 2005
@@ -108,7 +128,7 @@ BY_NAME: Dict[str, Type[exc.JsonRpcError]] = {
     'MethodNotFoundError': exc.MethodNotFoundError, 'InvalidParamsError': exc.InvalidParamsError,
     'InternalError': exc.InternalError, 'ServerError': exc.ServerError, 'Custom2001': Custom2001, 'Custom2002': Custom2002,
     'Custom2003': Custom2003, 'Custom2004': Custom2004, 'Custom2005': Custom2005, 'Custom2006Refined': Custom2006Refined, 'QuotaError': QuotaError, 'SrvRange': SrvRange, 'PlainBase': PlainBase, 'CodedBase': CodedBase, 'IndepBase': IndepBase,
-    'IndepA': IndepA, 'ZeroCode': ZeroCode,
+    'IndepA': IndepA, 'ZeroCode': ZeroCode, 'MetaBase': MetaBase,
 }
 
 TYPED = ['ParseError', 'InvalidRequestError', 'MethodNotFoundError', 'InvalidParamsError', 'InternalError', 'ServerError',
@@ -120,4 +140,6 @@ def expected_class(code: int, error_cls_name: str = 'JsonRpcError') -> Type[exc.
     base = BY_NAME[error_cls_name]
     if error_cls_name == 'IndepBase':
         return IndepA if code == 3001 else IndepBase
+    if error_cls_name == 'MetaBase':
+        return {2001: MetaA, 7: MetaB}.get(code, MetaBase)
     return GLOBAL.get(code, base)
